@@ -91,8 +91,7 @@ theorem C04_roundtrip_bulk_newtype_root (c : Trace.Code) (O : Trace.Options) (ex
   have htm' : toMarrow ext fields (ws.map (ser (Ty.struct n fs))) = .ok arrs := by
     rw [← toMarrow_newtypeStruct ext m fields, ← hser]; exact htm
   have hlen' : ws.length ≤ 9223372036854775807 := by simpa [ws] using hlen
-  obtain ⟨hacc, hnew, hread⟩ := C04_roundtrip_core_fields O ext n fs ws fields arrs hfrag hne hwt' hsc'
-    (fun _ => zip_physical fields arrs (C04_physical_fields O ext n fs ws fields arrs hwt' hlen' hfields htm')) hfields htm'
+  obtain ⟨hacc, hnew, hread⟩ := C04_roundtrip_core_fields O ext n fs ws fields arrs hfrag hne hwt' hsc' hlen' hfields htm'
   have hwl : ws.length = vs.length := by simp [ws]
   simp only [readAll, hacc, bind, Except.bind]
   rw [hnew]
